@@ -30,6 +30,9 @@ def _snap_state(m):
         'growth': [np.array(g, dtype=float).copy() for g in m.growth] if hasattr(m, 'growth') else None,
         'slice': {k: np.array(getattr(m.pData, k)[m.pData.n]).copy() for k in m.pData.ATTRIBUTES},
         'lengths': {k: len(getattr(m.pData, k)) for k in m.pData.ATTRIBUTES},
+        'vmA': float(m.matrixParameters.volume.Vm),
+        'vmB': [float(m.precipitateParameters[p].volume.Vm) for p in range(P)],
+        'volFactor': [float(m.precipitateParameters[p].nucleation.volumeFactor) for p in range(P)],
     }
     return s
 
@@ -50,6 +53,9 @@ def instrument(m, trace, real_iter):
             'prevFconc': np.array(m.pData.fconc[n]).copy(),
             'x0': np.array(m.pData.composition[0]).copy(),
             'compIn': np.array(Y.composition[0]).copy(),
+            'vmA': float(m.matrixParameters.volume.Vm),
+            'vmB': [float(m.precipitateParameters[p].volume.Vm) for p in range(len(m.phases))],
+            'volFactor': [float(m.precipitateParameters[p].nucleation.volumeFactor) for p in range(len(m.phases))],
         }
         out = orig_mb(t, x, Y)
         rec['out'] = {k: np.array(getattr(out, k)[0]).copy() for k in ('precipitateDensity', 'Ravg', 'volFrac', 'fconc', 'composition')}
@@ -71,13 +77,16 @@ def instrument(m, trace, real_iter):
         state['prev'] = st
         state['cur_step'] = None
 
-    m.addCouplingModel(stubs.StepObserver(obs))
+    itw_observer = stubs.StepObserver(obs)
+    m.addCouplingModel(itw_observer)
 
     def prime():
         # state before the first step (after setup)
         m.setup()
         state['prev'] = _snap_state(m)
     itw.prime = prime
+    itw.state = state
+    itw.observer = itw_observer
     return itw
 
 
@@ -98,6 +107,11 @@ def run_binary(cfg, rng=None):
     real = ExplicitEulerIterator if cfg.get('iterator', 'euler') == 'euler' else RK4Iterator
     itw = instrument(m, tr, real)
     itw.prime()
+
+    def state_reset(model):
+        # after model.reset() the run starts again from the initial state (coupling models are kept)
+        model.setup()
+        itw.state['prev'] = _snap_state(model)
     maxsteps = cfg.get('maxsteps', 3000)
 
     class Cap:
@@ -105,7 +119,16 @@ def run_binary(cfg, rng=None):
         def __init__(self):
             self.k = 0
     with contextlib.redirect_stdout(io.StringIO()):
-        for seg in cfg.get('segments', [1e3]):
+        between = cfg.get('between', [])
+        for k, seg in enumerate(cfg.get('segments', [1e3])):
+            if k > 0 and k - 1 < len(between):
+                # operations on the model between two solve calls: list of (method name, args)
+                for (meth, args) in between[k - 1]:
+                    if meth == 'reset':
+                        m.reset()
+                        state_reset(m)
+                    else:
+                        getattr(m, meth)(*args)
             m.solve(seg, solverType=itw, verbose=False)
             if len(tr.steps) >= maxsteps:
                 break
